@@ -55,11 +55,12 @@ class FaultPlan:
 
 
 class _WriteHandle:
-    def __init__(self, fs, path):
+    def __init__(self, fs, path, append=False):
         self.fs = fs
         self.path = path
         self.closed = False
-        fs.files[path] = ""          # POSIX: truncation at open
+        if not append or path not in fs.files:
+            fs.files[path] = ""          # POSIX: truncation at open ("w"); "a" keeps what is there
         fs.open_writes[path] = self
 
     def write(self, s):
@@ -159,13 +160,13 @@ class SimFS:
             raise HarnessError("binary open on simulated disk: " + path)
         if self.plan.tick("open"):
             raise OSError(self.plan.errno, _real_os.strerror(self.plan.errno), path)
-        if "w" in mode:
+        if "w" in mode or "a" in mode:
             d = path.rsplit("/", 1)[0]
             if d not in self.dirs:
                 raise FileNotFoundError(_errno.ENOENT, "No such file or directory", path)
             if path in self.dirs:
                 raise IsADirectoryError(_errno.EISDIR, "Is a directory", path)
-            return _WriteHandle(self, path)
+            return _WriteHandle(self, path, append="a" in mode)
         if path not in self.files:
             raise FileNotFoundError(_errno.ENOENT, "No such file or directory", path)
         return _ReadHandle(self, path, self.files[path])
